@@ -22,8 +22,8 @@ import re
 import subprocess
 import time
 
-from vlib import core
-from checks import c10
+from vlib import core, rt
+from checks import c10, c03
 
 PROP = "C18"
 STRUCT_TYPES = ["scalars", "tags", "coll", "ptr", "ifacestruct", "embed", "embedptr", "special", "annint", "annlist",
@@ -58,7 +58,7 @@ def reader_cases(wd, seed, per_cat):
     return [c for cs in core.parallel([lambda k=k: gen(k) for k in range(nsh)]) for c in cs]
 
 
-def make_groups(cases, ngroups, seed, sizes):
+def make_groups(cases, ngroups, seed, sizes, anydocs=()):
     rnd = random.Random(seed * 31337 + 18)
     bycat = {}
     for c in cases:
@@ -73,15 +73,35 @@ def make_groups(cases, ngroups, seed, sizes):
         ncat = len(cat)
         n = rnd.choice(sizes)
         ws = []
+        # every fifth group: only readers of streams that import a version the catalog lacks (the fall-back to the latest
+        # version is the one lookup that could be tempted to cache)
+        missing = [c for c in pool if any(42 <= x <= 51 for x in c["h"])]
+        if g % 5 == 4 and len(missing) >= 2 and ncat:
+            for _ in range(max(n, 3)):
+                ws.append(wl(kind=rnd.choice(["read", "decode"]), bytes=rnd.choice(missing)["bytes"]))
+            groups.append(dict(id="g%d" % (g + 1), cat=cat, workers=ws))
+            continue
+        # every fifth group: only readers of binary documents that hold timestamps with offsets, decimals and floats
+        # (whatever a reader might be tempted to memoise per value)
+        tsdocs = [c for c in anydocs if any(f.startswith("timestamp") for f in rt.features(c["forest"]))]
+        if g % 5 == 3 and len(tsdocs) >= 2:
+            for _ in range(max(n, 4)):
+                ws.append(wl(kind=rnd.choice(["read", "decode"]), bytes=rnd.choice(tsdocs)["bytes"]))
+            groups.append(dict(id="g%d" % (g + 1), cat=cat, workers=ws))
+            continue
         for _ in range(n):
             imps = sorted(rnd.sample(range(1, ncat + 1), rnd.randint(0, ncat))) if ncat else []
             k = rnd.choice(["read", "read", "decode", "write", "write", "marshal", "encode", "unmarshal", "unmarshal", "sstapi", "builder"])
             if k in ("read", "decode"):
-                c = rnd.choice(pool)
+                # a symbol-table stream of this catalogue, or (one in three) a document with values of every type
+                # (timestamps with offsets, decimals, floats, lobs ...) from the binary generator of C03
+                c = rnd.choice(anydocs) if anydocs and rnd.random() < 0.34 else rnd.choice(pool)
                 ws.append(wl(kind=k, bytes=c["bytes"]))
             elif k == "write":
                 acc = [c for c in pool if c["forest"]]
                 forest = rnd.choice(acc)["forest"] if acc else []
+                if anydocs and rnd.random() < 0.34:
+                    forest = rnd.choice(anydocs)["forest"]
                 ws.append(wl(kind=k, mode=rnd.choice(["text", "pretty", "binary", "binary"]), forest=forest, imports=imps))
             elif k in ("marshal", "encode", "unmarshal"):
                 nonce += 1
@@ -176,8 +196,9 @@ def run(tier):
         # ---- GEN groups
         cases = reader_cases(wd, seed, 12 if quick else 60)
         ngated, nfree = (24, 64) if quick else (160, 600)
-        ggroups = make_groups(cases, ngated, seed, [2, 2, 3, 3, 4])
-        fgroups = make_groups(cases, nfree, seed + 1000, [3, 4, 6, 8])
+        anydocs = [c for c in c03.gen(wd, 40 if quick else 300, 0, seed)[0] if c["kind"] in ("random", "random-parts") and len(c["bytes"]) < 3000]
+        ggroups = make_groups(cases, ngated, seed, [2, 2, 3, 3, 4], anydocs)
+        fgroups = make_groups(cases, nfree, seed + 1000, [3, 4, 6, 8], anydocs)
         for g in fgroups:
             g["id"] = "f" + g["id"]
         allg = ggroups + fgroups
